@@ -242,6 +242,8 @@ impl Property for C02 {
 pub enum SelCase {
     Direct { min_agree: u8, algo: AlgoSpec, snaps: Vec<SnapSpec>, reverse: bool },
     History(KCase),
+    /// history with steering, time and real measurements (intervals not reconstructed)
+    Dynamic(KCase),
 }
 
 fn to_snap(i: usize, s: &SnapSpec, sync: &SyncSpec) -> kh::Snap {
@@ -293,11 +295,12 @@ fn radius(s: &(f64, f64, f64, bool, u8), algo: &AlgoSpec) -> f64 {
     s.1.sqrt() * algo.stat_weight + s.2 * algo.delay_weight
 }
 
-fn sel_strategy(histories: BoxedStrategy<KCase>) -> BoxedStrategy<SelCase> {
+fn sel_strategy(histories: BoxedStrategy<KCase>, dynamic: bool) -> BoxedStrategy<SelCase> {
     prop_oneof![
         3 => (1u8..6, algo_strategy(true), prop::collection::vec(lattice_snap(false), 0..10), any::<bool>())
             .prop_map(|(min_agree, algo, snaps, reverse)| SelCase::Direct { min_agree, algo, snaps, reverse }),
         2 => histories.prop_map(SelCase::History),
+        if dynamic { 2 } else { 0 } => kcase_strategy(false, false, true, true, true, 40).prop_map(SelCase::Dynamic),
     ]
     .boxed()
 }
@@ -363,7 +366,7 @@ impl Property for C03 {
     const QUICK_CASES: u32 = 100_000;
     const THOROUGH_CASES: u32 = 5_000_000;
     fn strategy(_t: Tier) -> BoxedStrategy<SelCase> {
-        sel_strategy(static_history())
+        sel_strategy(static_history(), true)
     }
     fn check(case: &SelCase) -> Outcome {
         let mut labels = Labels::default();
@@ -415,6 +418,67 @@ impl Property for C03 {
                     labels.add("coinciding-endpoints");
                 }
                 let mut out = Outcome::pass(eligible >= 2);
+                out.labels = labels.0;
+                out
+            }
+            SelCase::Dynamic(k) => {
+                labels.add("dynamic");
+                let ops = crate::rt::run_paused(run_case(k, None));
+                let mut usable = vec![false; k.sources.len()];
+                let mut removed = vec![false; k.sources.len()];
+                let mut has_data = vec![false; k.sources.len()];
+                let mut last_leap = vec![3u8; k.sources.len()];
+                let mut nontrivial = false;
+                for (i, (op, o)) in k.ops.iter().zip(ops.iter()).enumerate() {
+                    match op {
+                        KOp::Usable { src, usable: u } => usable[*src as usize % k.sources.len()] = *u,
+                        KOp::Remove { src } => removed[*src as usize % k.sources.len()] = true,
+                        KOp::Snap { src, s } => {
+                            let j = *src as usize % k.sources.len();
+                            has_data[j] = true;
+                            last_leap[j] = s.leap % 5;
+                        }
+                        KOp::Meas { src, leap, .. } => {
+                            let j = *src as usize % k.sources.len();
+                            if o.produced.is_some() {
+                                has_data[j] = true;
+                            }
+                            last_leap[j] = *leap % 5;
+                        }
+                        _ => {}
+                    }
+                    let steered = o.events.iter().any(|e| matches!(e, ClockEvent::Step { .. } | ClockEvent::SetFreq { .. }));
+                    if steered && o.used.is_none() && !matches!(op, KOp::TimeUpdate) {
+                        bail!("clock-changed-without-reported-consensus", "op {i} ({op:?}): {:?}", o.events);
+                    }
+                    if let Some(used) = &o.used {
+                        if usable.iter().filter(|u| **u).count() >= 2 {
+                            nontrivial = true;
+                        }
+                        if (used.len()) < 1 {
+                            bail!("empty-used-source-report", "op {i}");
+                        }
+                        for u in used {
+                            if *u >= k.sources.len() || removed[*u] {
+                                bail!("unusable-or-unregistered-source-used", "op {i}: source {u} is not registered");
+                            }
+                            if !usable[*u] {
+                                bail!("unusable-or-unregistered-source-used", "op {i}: source {u} was last reported unusable");
+                            }
+                            if !has_data[*u] {
+                                bail!("unusable-or-unregistered-source-used", "op {i}: source {u} never delivered data");
+                            }
+                            if last_leap[*u] == 4 {
+                                bail!("unsynchronised-source-used", "op {i}: source {u}");
+                            }
+                        }
+                        let eligible_upper = (0..k.sources.len()).filter(|j| usable[*j] && !removed[*j] && has_data[*j]).count();
+                        if eligible_upper < k.sync.min_agree as usize {
+                            bail!("clock-update-with-fewer-usable-sources-than-minimum", "op {i}: {eligible_upper} usable sources with data, minimum {}", k.sync.min_agree);
+                        }
+                    }
+                }
+                let mut out = Outcome::pass(nontrivial);
                 out.labels = labels.0;
                 out
             }
@@ -480,7 +544,7 @@ impl Property for C04 {
     const QUICK_CASES: u32 = 100_000;
     const THOROUGH_CASES: u32 = 5_000_000;
     fn strategy(_t: Tier) -> BoxedStrategy<SelCase> {
-        sel_strategy(static_history())
+        sel_strategy(static_history(), false)
     }
     fn check(case: &SelCase) -> Outcome {
         let mut labels = Labels::default();
@@ -516,6 +580,7 @@ impl Property for C04 {
                 out.labels = labels.0;
                 out
             }
+            SelCase::Dynamic(_) => Outcome::pass(false).label("discard-dynamic"),
             SelCase::History(k) => {
                 labels.add("history");
                 let mut nontrivial = false;
